@@ -83,41 +83,42 @@ async def _rdf_case(rng, hids):
                 paths.append(p)
             for d in rng.sample(TREE_DIRS[1:], k=rng.randint(0, 3)):
                 Path(d).makedirs_p()
-            for p in paths:
-                r = rng.random()
-                if r < 0.25:
-                    continue  # not queued: a user file
-                if r < 0.4:
-                    wf.to_be_deleted[p] = None
-                    kind = "volatile"
-                else:
-                    wf.to_be_deleted[p] = FileHash.unknown().refreshed(p)
-                    kind = "hashed"
-                edit = rng.choice(["none", "none", "none", "overwrite", "same", "to-dir", "to-dir-nonempty", "delete"])
-                path = Path(p)
-                if edit == "overwrite":
-                    path.write_text("user version, different length " + p)
-                elif edit == "same":
-                    c = path.read_text()
-                    path.remove()
-                    path.write_text(c)
-                elif edit == "to-dir":
-                    path.remove()
-                    path.mkdir()
-                elif edit == "to-dir-nonempty":
-                    path.remove()
-                    path.mkdir()
-                    (path / "k.txt").write_text("k")
-                elif edit == "delete":
-                    path.remove()
-                desc.append([p, kind, edit])
-                if rng.random() < 0.8:
-                    wf.mark_dir_to_be_deleted(path.parent)
-            if rng.random() < 0.3:
-                wf.to_be_deleted["ghost/none.txt"] = None
-                wf.mark_dir_to_be_deleted("ghost")
-            for d in rng.sample(TREE_DIRS[1:] + ["a/b/c/", "."], k=rng.randint(0, 3)):
-                wf.mark_dir_to_be_deleted(d)
+            async with w.db:
+                for p in paths:
+                    r = rng.random()
+                    if r < 0.25:
+                        continue  # not queued: a user file
+                    if r < 0.4:
+                        wf.to_be_deleted[p] = None
+                        kind = "volatile"
+                    else:
+                        wf.to_be_deleted[p] = FileHash.unknown().refreshed(p)
+                        kind = "hashed"
+                    edit = rng.choice(["none", "none", "none", "overwrite", "same", "to-dir", "to-dir-nonempty", "delete"])
+                    path = Path(p)
+                    if edit == "overwrite":
+                        path.write_text("user version, different length " + p)
+                    elif edit == "same":
+                        c = path.read_text()
+                        path.remove()
+                        path.write_text(c)
+                    elif edit == "to-dir":
+                        path.remove()
+                        path.mkdir()
+                    elif edit == "to-dir-nonempty":
+                        path.remove()
+                        path.mkdir()
+                        (path / "k.txt").write_text("k")
+                    elif edit == "delete":
+                        path.remove()
+                    desc.append([p, kind, edit])
+                    if rng.random() < 0.8:
+                        wf.mark_dir_to_be_deleted(path.parent)
+                if rng.random() < 0.3:
+                    wf.to_be_deleted["ghost/none.txt"] = None
+                    wf.mark_dir_to_be_deleted("ghost")
+                for d in rng.sample(TREE_DIRS[1:] + ["a/b/c/", "."], k=rng.randint(0, 3)):
+                    wf.mark_dir_to_be_deleted(d)
             qfiles, qdirs = cc.dump_queue(wf, hids)
             before = cc.snapshot_fs(".", hids)
             client, reporter = cc.make_reporter()
@@ -240,7 +241,7 @@ def _clean_oracle(c):
 # E1c/E2 + oracle: Builder.finalize on real trees
 # ---------------------------------------------------------------------------------------------
 
-GUARDS = ["none", "none", "none", "targets", "incomplete", "no-clean"]
+GUARDS = ["none", "none", "none", "targets", "incomplete", "no-clean", "none", "target_dirs"]
 
 
 async def _finalize_cases(ctx, n):
@@ -387,6 +388,22 @@ def oracle(ctx):
     ctx.count("d12_replayed", 1)
     for sig, detail in cc.oracle_c06(r):
         emit("finalize:D12", "oracle:" + sig, detail, _wit(r))
+    # E3 part: generated histories through the real serve()
+    if cc.e3_available():
+        recs = cc.e3_histories(ctx.rng, ctx.scale(12, 150), 5000 + 1000 * ctx.seed)
+        for rec in recs:
+            if "error" in rec:
+                ctx.count("e3_harness_errors", 1)
+                continue
+            nrem = sum(1 for p in rec["before_files"] if p not in rec["after_files"])
+            ctx.case(("e3", rec["seed"], rec["phase"]), nrem > 0)
+            ctx.count("e3_builds", 1)
+            ctx.count("e3_removed_files", nrem)
+            ctx.count("e3_tampered_files", len(rec["tampered"]))
+            for sig, detail in cc.e3_oracle_c06(rec):
+                emit("e3", sig, detail, cc.e3_witness(rec))
+    else:
+        ctx.notes.append("harness/e3.py not importable: E3 part skipped")
     ctx.sample({"oracle": "nothing outside ever-declared outputs removed; modified outputs, static and adopted files survive; "
                           "guards honoured; no directory of an attached static tree removed", "signatures": sorted(seen)})
 
